@@ -17,6 +17,7 @@ OBLIGATIONS = [
     (P + "runs_on_loop_thread", "the log grows only in run_one's executing step, by exactly the popped completion_handler with its code"),
     (P + "double_arm_drops_first_counterexample", "D12 witness on the model: first of two readable handlers on one fd is destroyed uninvoked"),
     (P + "fullNoLoss_false", "the unrestricted no-loss statement is false of the code (D12)"),
+    (P + "cancel_overtakes_queued_arm_counterexample", "second witness on the model: a cancel issued after a cross-thread (queued) arm runs before it; the handler stays armed, never completed"),
     (P + "no_loss_partial", "PARTIAL (hypothesis NoDoubleArm): no handler is destroyed by a slot overwrite"),
     (P + "invoked_or_pending_partial", "PARTIAL (NoDoubleArm, no reset): every issued handler is invoked once xor still held once"),
     (P + "timer_not_early", "for all histories: a timer handler invoked with success ran after a run_one clock reading >= its deadline"),
@@ -36,6 +37,16 @@ OBLIGATIONS = [
 BACKENDS = ["epoll", "poll", "select"]
 CODES = {"ok": 0, "canceled": 1, "selfail": 2, "badf": 3, "syserr": 4}
 D12_ID = "aio-double-arm-drops-handler"
+STALE_ID = "aio-queued-arm-overtaken-by-cancel-close"
+D12_CASE = "L 1 0 P0=- S start ar:0:0 ar:0:0 pw:0 step:0 step:0 step"
+STALE_CASE = "L 1 0 P0=- P1=cl:0 S start post:1 ar:0:0 step step step step"
+RECORDED = {
+    D12_ID: {b: "log 1:ok:0:L | alive | kinds 0:i 1:i | phase polling" for b in ("epoll", "poll", "select")},
+    # the arm (queued while the loop polls) runs after the handler's cancel+close: epoll reports EBADF (handled: passes
+    # the judge), poll leaves the handler armed on a dead descriptor for ever, select makes run() throw EBADF
+    STALE_ID: {"poll": "log 0:ok:0:L | alive 1 | kinds 0:p 1:i | phase polling",
+               "select": "log 0:ok:0:L | alive 1 | kinds 0:p 1:i | phase failed"},
+}
 
 
 # ------------------------------------------------------------------ generators
@@ -198,7 +209,7 @@ def corpus_cases():
 
 # ------------------------------------------------------------------ canonicalisation / judge
 def canon(line):
-    line = re.sub(r"\s*\|\s*lost \d+\s*$", "", line)
+    line = re.sub(r"\s*\|\s*lost \d+\s*\|\s*stale \d+\s*$", "", line)
     return re.sub(r"\s+", " ", line).strip()
 
 
@@ -226,6 +237,8 @@ def judge_line(case, impl_out):
             c = calls.get(i, [0, 0, 0, 0])
             obs.append(f"{i}:{kind}:{dl}:{c[0]}:{c[1]}:{c[2]}:{c[3]}:{1 if i in alive else 0}")
         reset = 1 if "rs" in w else 0
+        if phase == "failed":
+            return "J-run-threw"      # an exception left io_service::run(): failing input by itself
         final = 1 if (is_final_case(case) and phase == "polling") else 0
         return f"J {reset} {final} " + " ".join(obs)
     if w[0] == "K":
@@ -294,15 +307,20 @@ def main():
         # classify with the model first: scenarios that arm an occupied slot are instances of the known
         # finding (hypothesis NoDoubleArm false); only the recorded witness of the corpus is replayed
         rc, mo, err = c.run_lines(model, cases)
-        keep, dropped_da = [], 0
+        keep, dropped_da, dropped_stale = [], 0, 0
         for cs, o in zip(cases, mo):
-            m = re.search(r"\| lost (\d+)\s*$", o)
-            if m and int(m.group(1)) > 0 and cs not in corpus and not c.replay_path:
-                dropped_da += 1
-                continue
+            m = re.search(r"\| lost (\d+) \| stale (\d+)\s*$", o)
+            if m and cs not in corpus and not c.replay_path:
+                if int(m.group(1)) > 0:
+                    dropped_da += 1
+                    continue
+                if int(m.group(2)) > 0:
+                    dropped_stale += 1
+                    continue
             keep.append(cs)
         cases = keep
         c.extra_cov["generated_cases_discarded_because_double_arm"] = dropped_da
+        c.extra_cov["generated_cases_discarded_because_arm_ran_after_close"] = dropped_stale
         loopish = [cs for cs in cases if cs[0] in "LC"]
         poolish = [cs for cs in cases if cs[0] == "K"]
         all_bad = []
@@ -335,14 +353,16 @@ def main():
                 c.violation("sanitizer abort / crash of the real code", {"backend": b, "case": crashed["case"], "stderr": crashed["stderr"]})
             # judge every implementation output with the property predicates (Spec.lean)
             jl = [(k, judge_line(cs_list[k], out_i[k])) for k in range(min(len(cs_list), len(out_i)))]
-            lean_j = [(k, l) for k, l in jl if l]
+            lean_j = [(k, l) for k, l in jl if l and l.startswith("J ") or l and l.startswith("JK ")]
             rcj, jout, jerr = c.run_lines(model, [l for _, l in lean_j])
             bad = []
             for (k, l), o in zip(lean_j, jout):
                 if o != "1":
                     bad.append(k)
             for k, l in jl:
-                if l is None:
+                if l == "J-run-threw":
+                    bad.append(k)
+                elif l is None:
                     if cs_list[k].startswith("C"):
                         if out_i[k] != "ok":
                             bad.append(k)
@@ -351,8 +371,8 @@ def main():
             c.extra_cov["judged_impl_outputs"] = c.extra_cov.get("judged_impl_outputs", 0) + len(jl)
             for k in sorted(set(bad)):
                 cs = cs_list[k]
-                if cs in corpus and "d12" in cs_tag(cs):
-                    witness_seen[b] = (out_i[k], out_m[k] if k < len(out_m) else None)
+                if cs in corpus and cs_tag(cs):
+                    witness_seen[(cs_tag(cs), b)] = out_i[k]
                     continue
                 c.violation("property predicate false on implementation output",
                             {"backend": b, "case": cs, "impl_output": out_i[k], "model_output": out_m[k] if k < len(out_m) else None,
@@ -371,20 +391,26 @@ def main():
                 for i, cs in enumerate(cs_list):
                     print("backend:", b); print("case :", cs); print("impl :", out_i[i] if i < len(out_i) else None)
                     print("model:", out_m[i] if i < len(out_m) else None)
-        # known finding: the D12 witness must still fail exactly as recorded, on every back-end
-        wit = [cs for cs in corpus if "d12" in cs_tag(cs)]
-        if wit and not c.replay_path:
-            recorded = "log 1:ok:0:L | alive | kinds 0:i 1:i | phase polling"
-            exact = all(witness_seen.get(b, (None, None))[0] == recorded for b in BACKENDS)
-            if exact and c.is_known(D12_ID):
-                c.known_finding(D12_ID, f"id={D12_ID} two on_readable on one descriptor: first handler destroyed without being invoked "
-                                        f"(witness gen/corpus/C17/d12-double-arm.case, all of {','.join(BACKENDS)})")
-            elif witness_seen:
-                b = sorted(witness_seen)[0]
-                c.violation("double-arm witness fails differently from the recorded known finding (or the finding is not listed)",
-                            {"backend": b, "case": wit[0], "impl_output": witness_seen[b][0], "recorded": recorded})
-            # if the witness passes the judge on all back-ends the defect is gone: the model (faithful to the old
-            # behaviour) then differs and the correspondence diff above reports it
+        # known findings: each witness must still fail exactly as recorded (per back-end); anything else is a violation
+        if not c.replay_path:
+            for fid, what in ((D12_ID, "two on_readable on one descriptor: first handler destroyed without being invoked "
+                                        "(witness gen/corpus/C17/d12-double-arm.case)"),
+                              (STALE_ID, "on_readable queued from another thread, then cancel+close from a handler runs directly and "
+                                         "overtakes it: handler armed on a closed descriptor, never invoked (poll) / run() throws EBADF "
+                                         "(select) (witness gen/corpus/C17/stale-arm.case)")):
+                seen = {b: o for (t, b), o in witness_seen.items() if t == fid}
+                if not seen:
+                    continue
+                exact = seen == RECORDED[fid]
+                if exact and c.is_known(fid):
+                    c.known_finding(fid, f"id={fid} {what}")
+                else:
+                    b0 = sorted(seen)[0]
+                    c.violation("known-finding witness fails differently from what is recorded (or the finding is not listed)",
+                                {"backend": b0, "case": D12_CASE if fid == D12_ID else STALE_CASE, "impl_output": seen[b0],
+                                 "recorded": RECORDED[fid], "observed": seen})
+            # if a witness passes the judge everywhere the defect is gone: the model (faithful to the old behaviour)
+            # then differs and the correspondence diff above reports it
         # thorough: ThreadSanitizer build, free-running cases only
         if thorough and not c.replay_path:
             if c.impl_build(tsan=True):
@@ -407,8 +433,8 @@ def main():
 
 
 def cs_tag(cs):
-    """corpus lines may be tagged by their position; the D12 witness is recognised by its shape"""
-    return "d12" if re.fullmatch(r"L 1 0 P0=- S start ar:0:0 ar:0:0 pw:0 step:0 step:0 step", cs) else ""
+    """the known-finding witnesses of the corpus are recognised by their exact text"""
+    return D12_ID if cs == D12_CASE else STALE_ID if cs == STALE_CASE else ""
 
 
 if __name__ == "__main__":
